@@ -63,6 +63,17 @@ int main ()
       // oracle: every deviate delivered is finite (flag) 
       else if (op == "o.c18.finite") { unsigned n = std::stoul (t[1]); for (size_t i=2;i<t.size();i++) g_uniform.push_back (rd (t[i]));
         BoxMuller bm (0); unsigned bad = 0; for (unsigned i=0;i<n;i++) { float x = bm(); if (!(x - x == 0)) bad++; } o << " " << bad; }
+      // oracle: a rejection run of n pairs (far beyond anything a line can script) followed by an accepted pair: the two deviates
+      // are those of the accepted pair alone, and exactly 2n+2 uniforms are consumed
+      else if (op == "o.c18.longreject") { unsigned long n = std::stoul (t[1]); double u1 = rd (t[2]), u2 = rd (t[3]);
+        for (unsigned long i=0;i<n;i++) { g_uniform.push_back (0.99); g_uniform.push_back (0.01 + 0.98 * ((i % 7) == 0)); }   // (0.99, 0.01) and (0.99, 0.99): both outside the disc
+        g_uniform.push_back (u1); g_uniform.push_back (u2); g_uniform.push_back (0.5); g_uniform.push_back (0.5);
+        g_ucalls = 0; unsigned bad = 0; float a = 0, b = 0;
+        try { BoxMuller bm (0); a = bm(); b = bm(); } catch (std::exception&) { bad += 4; }
+        if (g_ucalls != 2*n + 2) bad++;
+        g_uniform.clear(); g_uniform.push_back (u1); g_uniform.push_back (u2); g_uniform.push_back (0.5); g_uniform.push_back (0.5);
+        BoxMuller ref (0); float ra = ref(), rb = ref(); if (memcmp (&a, &ra, 4) != 0) bad++; if (memcmp (&b, &rb, 4) != 0) bad++;
+        g_uniform.clear(); o << " " << bad; }
       else if (op == "lcg.seq") { long seed = std::stol (t[1]); unsigned n = std::stoul (t[2]); real_srand48 (seed); for (unsigned i=0;i<n;i++) o << hx (real_drand48()); }
       else if (op == "rnd.double") { g_random.push_back (std::stol (t[1])); o << hx (random_double()); }
       else if (op == "rnd.value") { double scale = rd (t[1]); g_random.push_back (std::stol (t[2])); double v; random_value (v, scale); o << hx (v); }
